@@ -362,8 +362,10 @@ class Arr:
             key = (key,)
         out = []
         for k in key:
-            if isinstance(k, Arr) and k.kind == "torch" and k.a.ndim == 0 and not has_sym(k.a) and not isinstance(k.a[()], (bool, np.bool_)):
-                out.append(int(k.a[()]))          # torch treats a 0-d integer tensor index like a Python int (basic indexing, a view)
+            if isinstance(k, Arr) and k.a.ndim == 0 and not has_sym(k.a) and not isinstance(k.a[()], (bool, np.bool_)):
+                # torch treats a 0-d integer tensor index like a Python int (basic indexing, a view); in the numpy model a 0-d array
+                # only ever stands for a numpy *scalar* (element access yields 0-d arrays here), which indexes like an int too
+                out.append(int(k.a[()]))
                 continue
             if isinstance(k, Arr):
                 ka = k.a
@@ -991,6 +993,16 @@ class Arr:
             out.append(self[(slice(None),) * dim + (slice(at, at + sz),)])
             at += sz
         return tuple(out)
+
+    def index_copy_(self, dim, index, source):
+        """self[..., index[k], ...] = source[..., k, ...] along dim (in place; symbolic indices through the guarded store)"""
+        dim = dim % self.a.ndim
+        idx = index if isinstance(index, Arr) else type(self)(_obj(index), dtype="int64")
+        self[(slice(None),) * dim + (idx,)] = source
+        return self
+
+    def index_copy(self, dim, index, source):
+        return self.clone().index_copy_(dim, index, source)
 
     def index_fill(self, dim, index, value):
         r = self.clone()
